@@ -406,6 +406,9 @@ def o174(ctx):
         t = f.cols.get(c)
         ctx.count(1)
         top_ok = t is not None and t.op == "call" and t.args[0] == red  # the extreme itself, nothing folded into it (initial=, clip, ...)
+        if t is not None and not tm.has_call(t, "reduce:min") and not tm.has_call(t, "reduce:max") and not uses(t, "ioutils.tlt_load"):
+            # the column is read out of a buffer the interpretation did not follow (filled through a view by a helper): what it holds is not decided
+            raise Unsupported(f"EM wedge list: column {c!r} comes out of a buffer whose filling is not followed ({tm.show(t)[:60]})", last_store(it, f, c) or fe)
         if t is None or not top_ok or not (tm.has_call(t, red) and not tm.has_call(t, "reduce:max" if red.endswith("min") else "reduce:min")
                                            and uses(t, "ioutils.tlt_load")):
             ctx.finding(qe, last_store(it, f, c) or fe, f"{c} must be the {'minimum' if 'min' in c else 'maximum'} tilt angle of the tomogram",
